@@ -71,6 +71,24 @@ def check(recipe) -> list[Fail]:
     fails: list[Fail] = []
     build = chem.build_molecule if kind == "mol" else chem.build_ensemble
     objs = [build(r) for r in recipe["objs"]]
+    for o, r_ in zip(objs, recipe["objs"]):
+        if isinstance(r_.get("name"), str):
+            o.name = r_["name"]          # the name the caller gives (also the empty one), through the public setter
+    wrapped = recipe.get("wrapped", 0)
+    keep_alive = []
+    if wrapped:
+        # some atoms of each object have ALSO been handed, uncopied and in another order, to a container of somebody else
+        # (ml.Promolecule(picked_atoms) adopts them): the object itself - atom list, bonds, arrays - is as before.  1: that container
+        # is still alive while the object is stored, 2: it is gone again
+        import gc
+        import molli as ml
+        for o in objs:
+            if o.n_atoms >= 2:
+                picked = [o.atoms[i] for i in range(o.n_atoms - 1, -1, -2)]
+                keep_alive.append(ml.Promolecule(picked))
+        if wrapped == 2:
+            keep_alive.clear()
+            gc.collect()
     if recipe.get("parallel"):
         # a second Bond object between an already bonded pair (reversed, other type / label): part of the bond SEQUENCE like any other
         from molli.chem import Bond, BondType
@@ -290,7 +308,7 @@ def _enc_v1(kind, r, obj):
 
 
 def classify(recipe):
-    labels = [f"bufsize={BUFS[recipe['buf']]}", f"n_objs={len(recipe['objs'])}"] + (["edited_objects_stored_again"] if recipe.get("rewrite") else []) + (["float32_subclass"] if recipe.get("f32cls") else []) + ([f"encoding={ENCODINGS[recipe.get('enc', 0)]}"]) + (["parallel_bond"] if recipe.get("parallel") else []) + ([f"overwrites_existing_{recipe['pre']}_library"] if recipe.get("pre") else [])
+    labels = [f"bufsize={BUFS[recipe['buf']]}", f"n_objs={len(recipe['objs'])}"] + (["edited_objects_stored_again"] if recipe.get("rewrite") else []) + (["float32_subclass"] if recipe.get("f32cls") else []) + ([f"encoding={ENCODINGS[recipe.get('enc', 0)]}"]) + (["parallel_bond"] if recipe.get("parallel") else []) + ([["", "atoms_also_in_a_live_foreign_container", "atoms_carry_a_dead_parent_reference"][recipe.get("wrapped", 0)]] if recipe.get("wrapped") else []) + ([f"overwrites_existing_{recipe['pre']}_library"] if recipe.get("pre") else [])
     nt = False
     for r in recipe["objs"]:
         na = len(r["atoms"])
@@ -335,7 +353,7 @@ def _case(kind, v, objs):
         "kind": st.just(kind), "v": st.just(v), "objs": st.lists(objs, min_size=1, max_size=3), "keys": _keys,
         "buf": st.integers(0, 3), "read_in_session": st.booleans(),
         "pre": st.sampled_from([None, None, None, "v1", "v2"]) if v == 2 else st.none(),
-        "rewrite": st.booleans(), "peek": st.booleans(), "enc": st.integers(0, len(ENCODINGS) - 1), "parallel": st.sampled_from([0, 0, 0, 1, 2, 5]),
+        "rewrite": st.booleans(), "peek": st.booleans(), "enc": st.integers(0, len(ENCODINGS) - 1), "parallel": st.sampled_from([0, 0, 0, 1, 2, 5]), "wrapped": st.sampled_from([0, 0, 1, 2]),
         "f32cls": st.sampled_from([False, False, True]) if kind == "mol" else st.just(False),
     })
 
